@@ -156,3 +156,49 @@ def eval_poly(p, env):
             t *= env[v] ** e
         s += t
     return s
+
+
+def _mkey(m):
+    return (sum(e for _, e in m), m)
+
+
+def _mdiv(m, d):
+    """monomial m / d if divisible else None"""
+    dm = dict(m)
+    for v, e in d:
+        if dm.get(v, 0) < e:
+            return None
+        dm[v] -= e
+    return tuple(sorted((v, e) for v, e in dm.items() if e))
+
+
+def p_rem(D, P, limit=20000):
+    """Remainder of D on division by the single polynomial P (graded-lex order): D - Q*P with no term of the
+    remainder divisible by the leading monomial of P. D is a multiple of P iff the remainder is empty."""
+    if not P:
+        return D
+    lm = max(P.keys(), key=_mkey)
+    lc = P[lm]
+    D = dict(D)
+    R = {}
+    steps = 0
+    while D:
+        steps += 1
+        if steps > limit:
+            raise NotPoly("division too long")
+        m = max(D.keys(), key=_mkey)
+        c = D[m]
+        q = _mdiv(m, lm)
+        if q is None:
+            R[m] = c
+            del D[m]
+            continue
+        f = c / lc
+        for pm, pc in P.items():
+            mm = m_mul(pm, q)
+            v = D.get(mm, 0) - f * pc
+            if v == 0:
+                D.pop(mm, None)
+            else:
+                D[mm] = v
+    return R
